@@ -42,7 +42,16 @@ func c20Instances() []c20Inst {
 		}
 		return false
 	}
-	operands := append(append([]string{}, vars...), "1", "1.5", "true", "false", `"s"`, "nil")
+	calls := []string{"a:m()", "a:n()", "f(a)", "f(b)"}
+	isCall := func(s string) bool {
+		for _, v := range calls {
+			if v == s {
+				return true
+			}
+		}
+		return false
+	}
+	operands := append(append(append([]string{}, vars...), "1", "1.5", "true", "false", `"s"`, "nil"), calls...)
 	ops := []string{"or", "and", "<", "<=", ">", ">=", "==", "~=", "+", "-", "*", "..", "%"}
 	doc14 := map[string]bool{"or": true, "and": true, "<": true, "<=": true, ">": true, ">=": true, "==": true, "~=": true}
 	for _, op := range ops {
@@ -58,6 +67,9 @@ func c20Instances() []c20Inst {
 							in.mustNot[14] = true
 						}
 					}
+				}
+				if (isCall(e1) || isCall(e2)) && e1 != e2 && (isCall(e1) || isVar(e1)) && (isCall(e2) || isVar(e2)) {
+					in.mustNot[14] = true // different calls / a call and a variable are never "the same operand"
 				}
 				// 15 / 16
 				if op == "or" && e2 == "true" && isVar(e1) {
@@ -82,8 +94,9 @@ func c20Instances() []c20Inst {
 		}
 	}
 	// table constructors: key lists of length <= 3
-	keys := []string{"x = 1", "y = 1", `["x"] = 1`, "[1] = 1", "[2] = 1", "1"}
-	keyID := map[string]string{"x = 1": "s:x", "y = 1": "s:y", `["x"] = 1`: "s:x", "[1] = 1": "n:1", "[2] = 1": "n:2", "1": "pos"}
+	keys := []string{"x = 1", "y = 1", `["x"] = 1`, "[1] = 1", "[2] = 1", "1", "s = {x = 1}", "u = {z = 1, w = function() return {x = 1} end}"}
+	keyID := map[string]string{"x = 1": "s:x", "y = 1": "s:y", `["x"] = 1`: "s:x", "[1] = 1": "n:1", "[2] = 1": "n:2", "1": "pos",
+		"s = {x = 1}": "s:s", "u = {z = 1, w = function() return {x = 1} end}": "s:u"}
 	var rec func(cur []string)
 	rec = func(cur []string) {
 		if len(cur) >= 1 {
@@ -223,7 +236,7 @@ func c20Instances() []c20Inst {
 	}
 	prec(nil)
 	// if / elseif chains of <= 3 conditions
-	conds := []string{"a", "b", "a == 1", "a.x"}
+	conds := []string{"a", "b", "a == 1", "a.x", "a:m(b)", "a:n(b)", "f(a)"}
 	var crec func(cur []string)
 	crec = func(cur []string) {
 		if len(cur) >= 2 {
@@ -262,7 +275,7 @@ func c20Instances() []c20Inst {
 	// self assignment
 	lv := []string{"a", "b", "a.x", "a.y", "a[1]"}
 	for _, l := range lv {
-		for _, rv := range append(append([]string{}, lv...), "1") {
+		for _, rv := range append(append([]string{}, lv...), "1", "a:m()", "f(a)") {
 			in := c20Inst{code: l + " = " + rv, must: set(), mustNot: set(5, 7, 8, 13, 14, 15, 16, 19, 21), family: "assignment"}
 			if l == rv {
 				in.must[20] = true
